@@ -25,7 +25,7 @@ sys.path.insert(0, ROOT)
 from harness import tlcrun, replay, props, findings  # noqa: E402
 
 WORK = os.path.join(ROOT, '.work')
-EVID = os.path.join(ROOT, 'evidence')
+EVID = os.environ.get('VERIF_EVIDENCE_DIR') or os.path.join(ROOT, 'evidence')   # the override is for tools/seedcheck.sh only
 REPLAYS = os.path.join(WORK, 'replays')
 
 CFG_TEMPLATE = """CONSTANTS
@@ -106,7 +106,14 @@ def run_scenario(pid, sc, tier, seed, catalogue, out):
         for d in s.get('dev', []):
             out['dev_seen'][d] += 1
     t1 = time.time()
-    divs, nb, ns = replay.replay_all(meta, traces, catalogue, procs=sc.get('procs', 12))
+    if sc.get('chunked'):
+        # C21: the same behaviours, every receive_data() input cut into random pieces (seeded)
+        meta = dict(meta, chunk_seed=seed * 7919 + 1)
+        rec['chunked'] = True
+    if sc.get('hashseeds'):
+        divs, nb, ns = replay_under_hashseeds(meta, traces, wd, seed, rec, out)
+    else:
+        divs, nb, ns = replay.replay_all(meta, traces, catalogue, procs=sc.get('procs', 12))
     rec['replay_wall_s'] = round(time.time() - t1, 1)
     rec['steps_replayed'] = ns
     out['behaviours'] += nb
@@ -114,13 +121,48 @@ def run_scenario(pid, sc, tier, seed, catalogue, out):
     if traces and len(out['samples']) < 3:
         rnd = random.Random(seed)
         t = traces[rnd.randrange(len(traces))]
-        out['samples'].append({'scenario': mod, 'behaviour': [{k: s[k] for k in s if k != 'dev'} for s in t][:8]})
+        out['samples'].append({'scenario': mod, 'behaviour': [
+            dict({k: s[k] for k in s if k not in ('dev', 'p')}, predicted_and_observed={k: s['p'][k] for k in ('r', 'o', 'e', 'q')})
+            for s in t][:8]})
     for d in divs:
         d['scenario'] = mod
         d['meta'] = meta
         d['steps'] = traces[d['behaviour']]
     shutil.rmtree(wd, ignore_errors=True)
     return divs
+
+
+def replay_under_hashseeds(meta, traces, wd, seed, rec, out):
+    """C28: replay the behaviours in two fresh interpreters with different PYTHONHASHSEED values; both must agree
+    with the (deterministic) model, and the digests of every emitted byte must be equal."""
+    import gzip
+    import subprocess
+    os.makedirs(wd, exist_ok=True)
+    f = os.path.join(wd, 'behaviours.json.gz')
+    with gzip.open(f, 'wt') as fh:
+        json.dump({'meta': meta, 'traces': traces}, fh)
+    hs = [str(1 + (seed * 2654435761 + 12345) % 4294967290), str(1 + (seed * 40503 + 977) % 4294967290)]
+    if hs[0] == hs[1]:
+        hs[1] = str(int(hs[1]) + 1)
+    procs = [subprocess.Popen([sys.executable, '-m', 'harness.replay_cli', f], cwd=ROOT, stdout=subprocess.PIPE, text=True,
+                              env=dict(os.environ, PYTHONHASHSEED=h)) for h in hs]
+    results = []
+    for p, h in zip(procs, hs):
+        o, _ = p.communicate()
+        try:
+            results.append(json.loads(o.strip().splitlines()[-1]))
+        except Exception:
+            out['machinery'].append('replay under PYTHONHASHSEED=%s failed: %s' % (h, o[-500:]))
+            return [], 0, 0
+    rec['hashseeds'] = hs
+    rec['output_digests'] = [r['digest'] for r in results]
+    divs = results[0]['divs'] + results[1]['divs']
+    if results[0]['digest'] != results[1]['digest']:
+        divs.append({'kind': 'diverged', 'phase': 'step', 'step': 0, 'fields': ['o'], 'call': None, 'a': 'call', 'x': '?',
+                     'expected': {'o': 'digest ' + results[0]['digest']}, 'observed': {'o': 'digest ' + results[1]['digest']},
+                     'dev': [], 'behaviour': 0,
+                     'what': 'emitted bytes differ between PYTHONHASHSEED=%s and PYTHONHASHSEED=%s' % tuple(hs)})
+    return divs, results[0]['n'] + results[1]['n'], results[0]['steps'] + results[1]['steps']
 
 
 def write_replay(pid, n, d):
@@ -139,15 +181,16 @@ def do_check(pid, tier, seed):
            'dev_seen': collections.Counter(), 'behaviours': 0, 'steps': 0, 'samples': []}
     violations = []
     known_lines = []
+    notes = []
 
     # (1) known findings of this property: re-executed against the current tree
     for kf in findings.for_property(pid):
         status, detail = findings.reexecute(kf, catalogue)
         if status == 'still':
             known_lines.append('KNOWN-FINDING: property=%s %s: %s' % (pid, kf['id'], kf['what']))
-        elif status == 'different':
-            violations.append({'kind': 'finding-changed', 'finding': kf['id'], 'detail': detail,
-                               'meta': kf['program']['meta'], 'steps': kf['program']['steps'], 'scenario': 'finding:' + kf['id']})
+        elif status == 'changed':
+            # the recorded failure no longer reproduces as recorded: not a verdict by itself -- the scenario models decide
+            notes.append('NOTE: property=%s finding %s no longer reproduces as recorded (fields %s differ)' % (pid, kf['id'], detail))
         elif status == 'harness':
             out['machinery'].append('finding %s: %s' % (kf['id'], detail))
 
@@ -158,11 +201,16 @@ def do_check(pid, tier, seed):
             continue
         all_divs += run_scenario(pid, sc, tier, seed, catalogue, out)
     foreign = collections.Counter()
+    tainted = collections.Counter()
     for d in all_divs:
         if d['kind'] == 'harness':
             out['machinery'].append('replay harness failure in %s: %s' % (d['scenario'], d['why'][-800:]))
             continue
-        if props.in_lens(pid, d):
+        if props.tainted(d):
+            # the model reached this step through a marked deviation branch (a known finding): what it predicts there is
+            # the recorded defective behaviour, and code that behaves differently there is not judged by this check
+            tainted[','.join(sorted(d['dev']))] += 1
+        elif props.in_lens(pid, d):
             violations.append(d)
         else:
             foreign[','.join(d['fields'])] += 1
@@ -170,7 +218,7 @@ def do_check(pid, tier, seed):
         violations.append({'kind': 'formula', 'scenario': fv['module'], 'what': fv['what'], 'detail': fv['detail'],
                            'meta': None, 'steps': None})
 
-    for l in known_lines:
+    for l in known_lines + notes:
         print(l)
     # report at most a handful of distinct violations
     seen = set()
@@ -213,6 +261,8 @@ def do_check(pid, tier, seed):
             'outcome_histogram': {'%s/%s/%s' % k: v for k, v in sorted(out['ops'].items(), key=lambda kv: -kv[1])[:60]},
             'deviation_branches_exercised': dict(out['dev_seen']),
             'foreign_divergence': dict(foreign),
+            'divergence_after_known_deviation_not_judged': dict(tainted),
+            'notes': notes,
             'known_findings_seen': known_lines,
             'formula_violations': out['formula_violations'],
             'checker_cmd': 'tlc -workers 1 <scenario>.tla (cfg generated by harness/check.py), then harness/replay.py',
